@@ -47,48 +47,61 @@ def nextIsStart (nx : Next) (l : List String) : Bool :=
   | .start n => isOneOf n l
   | _ => false
 
+def is (e : List Char) (name : String) : Bool := e = name.toList
+
+/-- html, head, body, colgroup: their end tags may be omitted unless a comment (html, body) resp. whitespace or a
+    comment (head, colgroup) follows — statements about where a whitespace / comment node ends up, not about elements -/
+def isDocElem (e : List Char) : Bool := is e "html" || is e "body" || is e "head" || is e "colgroup"
+
+/-- "… if the element is immediately followed by a … element": the start tags before which the END tag of `e` may
+    be omitted -/
+def closers (e : List Char) : List String :=
+  if is e "li" then ["li"]
+  else if is e "dt" then ["dt", "dd"]
+  else if is e "dd" then ["dd", "dt"]
+  else if is e "p" then pClosers
+  else if is e "rt" || is e "rp" then ["rt", "rp"]
+  else if is e "rb" then ["rb", "rt", "rtc", "rp"]
+  else if is e "rtc" then ["rb", "rtc"]
+  else if is e "optgroup" then ["optgroup", "hr"]
+  else if is e "option" then ["option", "optgroup", "hr"]
+  else if is e "thead" || is e "tbody" then ["tbody", "tfoot"]
+  else if is e "tr" then ["tr"]
+  else if is e "td" || is e "th" then ["td", "th"]
+  else []
+
+/-- "… or if there is no more content in the parent element".  For `thead` the standard's text has no such clause;
+    it is included because the tree builder closes an open `thead` at `</table>` (a table whose only section is a
+    `thead` is conforming), so that the end tag is inferred again at the same place.  `dt` must be followed by a
+    `dd`. -/
+def omitAtEnd (e : List Char) : Bool :=
+  is e "li" || is e "dd" || is e "p" || is e "rt" || is e "rp" || is e "rb" || is e "rtc" || is e "optgroup" ||
+  is e "option" || is e "thead" || is e "tbody" || is e "tfoot" || is e "tr" || is e "td" || is e "th"
+
 /-- may the END tag of element `e` be omitted when `nx` follows? -/
 def mayOmitEnd (e : List Char) (nx : Next) : Bool :=
-  if e = "li".toList then nextIsStart nx ["li"] || noMoreContent nx
-  else if e = "dt".toList then nextIsStart nx ["dt", "dd"]
-  else if e = "dd".toList then nextIsStart nx ["dd", "dt"] || noMoreContent nx
-  else if e = "p".toList then
-    nextIsStart nx pClosers ||
-    (match nx with
-     | .end_ parent => !isOneOf parent pKeepParents && !isCustomName parent
-     | .eof => true
-     | _ => false)
-  else if e = "rt".toList || e = "rp".toList then nextIsStart nx ["rt", "rp"] || noMoreContent nx
-  else if e = "rb".toList then nextIsStart nx ["rb", "rt", "rtc", "rp"] || noMoreContent nx
-  else if e = "rtc".toList then nextIsStart nx ["rb", "rtc"] || noMoreContent nx
-  else if e = "optgroup".toList then nextIsStart nx ["optgroup", "hr"] || noMoreContent nx
-  else if e = "option".toList then nextIsStart nx ["option", "optgroup", "hr"] || noMoreContent nx
-  else if e = "thead".toList then nextIsStart nx ["tbody", "tfoot"]
-  else if e = "tbody".toList then nextIsStart nx ["tbody", "tfoot"] || noMoreContent nx
-  else if e = "tfoot".toList then noMoreContent nx
-  else if e = "tr".toList then nextIsStart nx ["tr"] || noMoreContent nx
-  else if e = "td".toList || e = "th".toList then nextIsStart nx ["td", "th"] || noMoreContent nx
-  -- html, body: unless followed by a comment; head, colgroup, caption: unless followed by whitespace or a comment —
-  -- both are statements about where a whitespace / comment node ends up, not about elements
-  else if e = "html".toList || e = "body".toList || e = "head".toList || e = "colgroup".toList then true
-  else false
+  isDocElem e ||
+  match nx with
+  | .start n => isOneOf n (closers e)
+  | .end_ parent => omitAtEnd e && (!is e "p" || (!isOneOf parent pKeepParents && !isCustomName parent))
+  | .eof => omitAtEnd e
+  | .other => false
 
-/-- elements that the tree builder moves into `head` when they come right after `</head>` / before any body
-    content: a `body` start tag must not be omitted in front of them -/
-def headBound : List String :=
-  ["meta", "noscript", "link", "script", "style", "template", "base", "basefont", "bgsound", "noframes", "title"]
+/-- the elements that the tree builder moves into `head` when no `body` is open yet: "… except if the first thing
+    inside the body element is a meta, noscript, link, script, style, or template element" -/
+def headBound : List String := ["meta", "noscript", "link", "script", "style", "template"]
 
 /-- may the START tag of element `e` be omitted when `nx` is the first significant thing inside it, and `prev`
     is the significant token before the start tag? -/
 def mayOmitStart (e : List Char) (prev nx : Next) : Bool :=
-  if e = "html".toList then true                       -- unless the first thing inside is a comment
-  else if e = "head".toList then
+  if is e "html" then true                       -- unless the first thing inside is a comment
+  else if is e "head" then
     (match nx with | .start _ => true | .end_ n => n = "head".toList | _ => false)
-  else if e = "body".toList then
+  else if is e "body" then
     (match nx with
      | .start n => !isOneOf n headBound
      | _ => true)
-  else if e = "colgroup".toList then
+  else if is e "colgroup" then
     nextIsStart nx ["col"] && !(match prev with | .end_ n => n = "colgroup".toList | _ => false)
   else false
 
@@ -97,22 +110,30 @@ def mayOmitStart (e : List Char) (prev nx : Next) : Bool :=
 /-- script-supporting elements may appear wherever a content model lists elements only -/
 def scriptSupporting : List String := ["script", "template"]
 
-/-- can `nx` follow the end tag of `e` in a document that obeys the content models?  (`p` and the document
-    elements can be followed by anything.) -/
+/-- the element start tags that the content models allow directly after the end tag of `e`
+    (`none`: anything — `p`, ruby text, the document elements) -/
+def allowedAfter (e : List Char) : Option (List String) :=
+  if is e "li" then some ["li"]
+  else if is e "dt" || is e "dd" then some ["dt", "dd"]
+  else if is e "optgroup" || is e "option" then some ["optgroup", "option", "hr"]
+  else if is e "thead" then some ["tbody", "tr", "tfoot"]
+  else if is e "tbody" then some ["tbody", "tfoot"]
+  else if is e "tfoot" then some []
+  else if is e "tr" then some ["tr"]
+  else if is e "td" || is e "th" then some ["td", "th"]
+  else none
+
+/-- can `nx` follow the end tag of `e` in a document that obeys the content models?  `dt` cannot be last (a `dd`
+    must follow); `rb` and `rtc` are obsolete elements: nothing conforming contains them. -/
 def conformingAfter (e : List Char) (nx : Next) : Bool :=
-  let elems (l : List String) : Bool := nextIsStart nx (l ++ scriptSupporting) || noMoreContent nx
-  if e = "li".toList then elems ["li"]
-  else if e = "dt".toList then nextIsStart nx (["dt", "dd"] ++ scriptSupporting)
-  else if e = "dd".toList then elems ["dt", "dd"]
-  else if e = "rt".toList || e = "rp".toList then true          -- ruby: phrasing content, rt, rp in any order
-  else if e = "rb".toList || e = "rtc".toList then false        -- obsolete elements
-  else if e = "optgroup".toList then elems ["optgroup", "option", "hr"]
-  else if e = "option".toList then elems ["option", "optgroup", "hr"]
-  else if e = "thead".toList then nextIsStart nx (["tbody", "tr", "tfoot"] ++ scriptSupporting) || noMoreContent nx
-  else if e = "tbody".toList then elems ["tbody", "tfoot"]
-  else if e = "tfoot".toList then elems []
-  else if e = "tr".toList then elems ["tr"]
-  else if e = "td".toList || e = "th".toList then elems ["td", "th"]
-  else true
+  if is e "rb" || is e "rtc" then false
+  else match allowedAfter e with
+    | none => !(nextIsStart nx ["rb", "rtc"])
+    | some l =>
+      (match nx with
+       | .start n => isOneOf n (l ++ scriptSupporting)
+       | .end_ _ => !is e "dt"
+       | .eof => !is e "dt"
+       | .other => false)
 
 end Verif.Spec.HtmlOptional
